@@ -248,6 +248,19 @@ func (r *Run) knownTruth(path *Path, rfn *Func, x ast.Expr) (val, known bool) {
 	if tv, ok := info.Types[x]; ok && tv.Value != nil && tv.Value.Kind() == constant.Bool {
 		return constant.BoolVal(tv.Value) != neg, true
 	}
+	// a compound result whose operands the engine split on this path
+	for _, ev := range path.Events {
+		if ev.Kind != EvReturn || ev.Fn != rfn || ev.RetTruth == nil {
+			continue
+		}
+		for k, res := range ev.Results {
+			if ast.Unparen(res) == x {
+				if t, ok := ev.RetTruth[k]; ok {
+					return t != neg, true
+				}
+			}
+		}
+	}
 	id, ok := x.(*ast.Ident)
 	if !ok {
 		return false, false
